@@ -434,6 +434,10 @@ def c02(ctx, rep):
     line_loop_rules(ctx, rep, "C02")
     from .checks_pipe import stream_open_rule
     stream_open_rule(ctx, rep, "C02")
+    _gate_v6(m, rep, "C02")  # an image that lands in a block the gate skips is never undone
+    from .checks_pipe import import_clauses
+    from . import checks_rx as _rx
+    import_clauses(ctx, rep, "C02", "C06", _rx.c06, ("C06.ipv6-body", "C06.ipv6-hex-", "C06.ipv4-body", "C06.ipv4-complete", "C06.ipv4-exact"))  # undo on files finds every image again only if every address text is matched
     independent_wiring(ctx, rep, "C02", only=("anonymizer4", "anonymizer6"))
 
 
@@ -472,6 +476,9 @@ def c03(ctx, rep):
     _pin_iterable(m, rep, "C03")
     from .checks_misc import argument_mutation_rule, stage_state_rule
     stage_state_rule(ctx, rep, "C03", IP_STAGE_ROOTS)
+    _undo_threading(ctx, m, rep, "C03")
+    from .checks_pipe import line_loop_rules as _llr
+    _llr(ctx, rep, "C03")  # the image of an address does not depend on where in a (long) line it stands
     _gate_content(ctx, m, rep, "C03")  # whether an address is mapped at all depends on the address and the options only, not on the memo
     argument_mutation_rule(ctx, rep, "C03", [f for f in [c.find_method("__init__") for c in [m.base] + m.p.subclasses(m.base)] if f is not None])
     m.check_split(rep, "C03")
